@@ -2,7 +2,7 @@ SPECIFICATION Spec
 CONSTANTS
  Writers = {1, 2}
  MaxCalls = 2
- Blocking = TRUE
+ Blocking = FALSE
  UseLock = FALSE
 INVARIANTS GaplessInv NoDuplicate
 CHECK_DEADLOCK FALSE
